@@ -126,11 +126,21 @@ const (
 type simEvHeap []*simEvent
 
 func (h simEvHeap) Len() int { return len(h) }
+// Events of one virtual millisecond run in a canonical order (arrivals, then
+// ticks, then application steps, then scripted functions; A before B) that does
+// not depend on when they were scheduled.
 func (h simEvHeap) Less(i, j int) bool {
-	if h[i].t != h[j].t {
-		return h[i].t < h[j].t
+	a, b := h[i], h[j]
+	if a.t != b.t {
+		return a.t < b.t
 	}
-	return h[i].seq < h[j].seq
+	if a.kind != b.kind {
+		return a.kind < b.kind
+	}
+	if a.kind != evArrive && a.end != b.end {
+		return a.end < b.end
+	}
+	return a.seq < b.seq
 }
 func (h simEvHeap) Swap(i, j int) { h[i], h[j] = h[j], h[i] }
 func (h *simEvHeap) Push(x any)   { *h = append(*h, x.(*simEvent)) }
@@ -189,6 +199,7 @@ type coreEnd struct {
 	maxRcvBuf    int
 	maxInflight  int
 	firstTxAt    int64
+	lastWaitSnd  int
 }
 
 type simCore struct {
@@ -253,7 +264,13 @@ func newSimCore(rec *vrec, desc any, cfgA, cfgB coreCfg, appA, appB appScript, f
 		simKCPs[e.k] = e
 	}
 	s.ends[0].app, s.ends[1].app = appA, appB
-	s.ends[0].wStream, s.ends[1].wStream = 0xA000+uint64(hashAny(desc)&0xfff), 0xB000+uint64(hashAny(desc)&0xfff)
+	salt := uint64(0)
+	if sc, ok := desc.(*coreScenario); ok {
+		salt = uint64(sc.Case) & 0xfff
+	} else if sc, ok := desc.(coreScenario); ok {
+		salt = uint64(sc.Case) & 0xfff
+	}
+	s.ends[0].wStream, s.ends[1].wStream = 0xA000+salt, 0xB000+salt
 	s.ends[0].rStream, s.ends[1].rStream = s.ends[1].wStream, s.ends[0].wStream
 	// sequence-number placement (C12): end i sends from snShift[i]
 	for i := 0; i < 2; i++ {
@@ -381,10 +398,11 @@ func (s *simCore) traceDatagram(e *coreEnd, segs []wseg) {
 	// and clock offsets subtracted
 	own, peer := s.snShift[e.idx], s.snShift[1-e.idx]
 	var b [64]byte
-	binary.LittleEndian.PutUint64(b[0:], uint64(s.now))
-	b[8] = byte(e.idx)
-	b[9] = byte(len(segs))
-	s.trace = append(s.trace, b[:10]...)
+	b[0] = 0xDD
+	binary.LittleEndian.PutUint64(b[1:], uint64(s.now))
+	b[9] = byte(e.idx)
+	b[10] = byte(len(segs))
+	s.trace = append(s.trace, b[:11]...)
 	for _, sg := range segs {
 		var sn, ts uint32
 		switch sg.cmd {
@@ -525,7 +543,7 @@ func (s *simCore) run(done func() bool) bool {
 		}
 		s.events++
 		if s.events > s.maxEvents {
-			s.rec.inconcl(fmt.Sprintf("event budget exhausted at t=%d (%v)", s.now, s.desc))
+			s.rec.inconcl(fmt.Sprintf("event budget exhausted at t=%d ms (case hash %x)", s.now, hashAny(s.desc)))
 			return false
 		}
 		var e *coreEnd
@@ -611,7 +629,12 @@ func (s *simCore) afterEvent(e *coreEnd, before snmpLoss) {
 	if k.rmt_wnd == 0 {
 		e.sawRmtZero = true
 	}
-	s.traceNote('w', e, int64(k.WaitSnd()))
+	// recorded on change only: the trace must not depend on how often the
+	// application polls (Check may legitimately ask for more or fewer calls)
+	if w := k.WaitSnd(); w != e.lastWaitSnd {
+		e.lastWaitSnd = w
+		s.traceNote('w', e, int64(w))
+	}
 }
 
 // ---------------------------------------------------------------------------
@@ -941,4 +964,35 @@ func (c coreCfg) mss() int {
 		m = IKCP_MTU_DEF
 	}
 	return m - IKCP_OVERHEAD
+}
+
+// dumpTrace renders a normalised trace as text (for violation witnesses).
+func dumpTrace(tr []byte) []string {
+	var out []string
+	for len(tr) > 0 {
+		switch tr[0] {
+		case 0xDD:
+			if len(tr) < 11 {
+				return append(out, "truncated")
+			}
+			t := binary.LittleEndian.Uint64(tr[1:])
+			end, n := tr[9], int(tr[10])
+			tr = tr[11:]
+			line := fmt.Sprintf("t=%d %c sends:", t, 'A'+end)
+			for i := 0; i < n && len(tr) >= 28; i++ {
+				line += fmt.Sprintf(" [cmd=%d frg=%d wnd=%d ts=%d sn=%d una=%d len=%d h=%x]", tr[0], tr[1], binary.LittleEndian.Uint16(tr[2:]), binary.LittleEndian.Uint32(tr[4:]), binary.LittleEndian.Uint32(tr[8:]), binary.LittleEndian.Uint32(tr[12:]), binary.LittleEndian.Uint32(tr[16:]), binary.LittleEndian.Uint64(tr[20:])&0xffff)
+				tr = tr[28:]
+			}
+			out = append(out, line)
+		case 0xEE:
+			if len(tr) < 15 {
+				return append(out, "truncated")
+			}
+			out = append(out, fmt.Sprintf("t=%d %c %c=%d", binary.LittleEndian.Uint64(tr[2:]), 'A'+tr[10], tr[1], int32(binary.LittleEndian.Uint32(tr[11:]))))
+			tr = tr[15:]
+		default:
+			return append(out, "unparsable")
+		}
+	}
+	return out
 }
